@@ -16,6 +16,10 @@ import (
 // explored. Each call must get the verdict it would get in isolation.
 
 func verifC09(concurrent, preconfigured, fromBlob bool) {
+	verifC09x(concurrent, preconfigured, fromBlob, false)
+}
+
+func verifC09x(concurrent, preconfigured, fromBlob, fromGetter bool) {
 	// a genuine endorsement (decodes, chains, verifies, provenance present) with one symbolic
 	// table row and a symbolic SVSM value; the two report measurements and the requested VMSA
 	// count are arbitrary
@@ -47,6 +51,14 @@ func verifC09(concurrent, preconfigured, fromBlob bool) {
 		opts.Endorsement = nil
 		blob = w.outerBytes
 	}
+	if fromGetter {
+		// nothing travels with the reports and nothing is pre-parsed: the validator fetches
+		w.outerBytes = verifNondetBytes("outer", 2)
+		w.outer = e
+		opts.Endorsement = nil
+		opts.Getter = &verifGetter{blob: w.outerBytes}
+	}
+	sharedEndorsement := opts.Endorsement
 	validate := SNPValidateFunc(opts)
 	ma := verifNondetBytes("meas_a", 48)
 	mb := verifNondetBytes("meas_b", 48)
@@ -67,6 +79,7 @@ func verifC09(concurrent, preconfigured, fromBlob bool) {
 		doneB = true
 	}
 	verifAssert(doneA && doneB, "both validations completed")
+	verifAssert(opts.Endorsement == sharedEndorsement, "the endorsement field of the shared options is not replaced by a validation")
 	if preconfigured {
 		verifAssert(bytes.Equal(opts.SNP.Measurement, pre), "the options value the caller configured is not changed by validations")
 	}
@@ -94,9 +107,11 @@ func verifC09(concurrent, preconfigured, fromBlob bool) {
 
 func verifProvenanceMissing(w *verifWorld) bool { return false }
 
-func VerifC09Successive()     { verifC09(false, false, false) }
-func VerifC09Concurrent()     { verifC09(true, false, false) }
-func VerifC09SuccessivePre()  { verifC09(false, true, false) }
-func VerifC09ConcurrentPre()  { verifC09(true, true, false) }
-func VerifC09SuccessiveBlob() { verifC09(false, false, true) }
-func VerifC09ConcurrentBlob() { verifC09(true, false, true) }
+func VerifC09Successive()      { verifC09(false, false, false) }
+func VerifC09Concurrent()      { verifC09(true, false, false) }
+func VerifC09SuccessivePre()   { verifC09(false, true, false) }
+func VerifC09ConcurrentPre()   { verifC09(true, true, false) }
+func VerifC09SuccessiveBlob()  { verifC09(false, false, true) }
+func VerifC09ConcurrentBlob()  { verifC09(true, false, true) }
+func VerifC09SuccessiveFetch() { verifC09x(false, false, false, true) }
+func VerifC09ConcurrentFetch() { verifC09x(true, false, false, true) }
